@@ -40,6 +40,136 @@ def _element_dicts(run, fn, ctor_name):
     return out
 
 
+def _powhsm_pages(run, PV, PA, pr, g):
+    """R4 (pages): one iteration of the page loop of PowHsmAttestation.run as a decision table."""
+    P, A = run.P, run.A
+    from sa.decide import Walker, cmp_parts, completions
+    from sa.canon import ieval, NotClosed
+    run.rule("R4p", "powHSM message / envelope gathering, one page-loop iteration as a decision table: the request is send(op, bytes([page])) with page 0, 1, 2, ...; "
+             "with MORE = (answer[DATA] == 1) and LEGACY = (gathering the message and the answer's data starts with LEGACY_HEADER): not LEGACY -> append "
+             "answer[DATA+1:], go on iff MORE; LEGACY -> append answer[DATA:] (the whole data: a legacy message has no flag byte), stop, and the envelope is the message; "
+             "page += 1 either way; buffers start empty.")
+    loops = [n for n in A.own_nodes(pr) if isinstance(n, ast.While) and any(isinstance(c, ast.Call) and call_name(c) == "send" for c in ast.walk(n))]
+    run.require(len(loops) == 1, "PowHsmAttestation.run: the page loop (while ...: self.send(op, page)) was not identified")
+    loop = loops[0]
+    head, after = c06._while_nodes(g, loop)
+    run.require(head is not None, "PowHsmAttestation.run: page loop structure not understood")
+    sends = [n for n in ast.walk(loop) if isinstance(n, ast.Assign) and isinstance(n.value, ast.Call) and call_name(n.value) == "send"
+             and len(n.targets) == 1 and isinstance(n.targets[0], ast.Name)]
+    run.require(len(sends) == 1, "PowHsmAttestation.run: `answer = self.send(op, bytes([page]))` not found in the page loop")
+    R = sends[0].targets[0].id
+    sc = sends[0].value
+    # the command object's Offset is the dongle's OFF table (HSM2DongleCommand.__init__: self.Offset = hsm2dongle.OFF)
+    DG = P.cls("ledger.hsm2dongle.HSM2Dongle")
+    cini = P.method(P.cls("ledger.hsm2dongle_cmds.command.HSM2DongleCommand"), "__init__")
+    offs = [n for n in A.own_nodes(cini) if isinstance(n, ast.Assign) and norm(n.targets[0]) == "self.Offset"]
+    run.require(len(offs) == 1 and norm(offs[0].value) == f"{cini.params[1]}.OFF", "HSM2DongleCommand: self.Offset is no longer the dongle's OFF table")
+    anyd = next(iter(DG.methods.values()))
+    okd, DATA = try_fold(P, ast.parse("self.OFF.DATA", mode="eval").body, anyd, DG)
+    run.require(okd and isinstance(unwrap(DATA), int), "OFF.DATA not foldable")
+    DATA = unwrap(DATA)
+    locs_ = set(PV.defs(pr, PA)) | set(pr.params)
+
+    class _Off(ast.NodeTransformer):
+        def visit_Attribute(self, node):
+            if norm(node.value) == "self.Offset":
+                ok_, v_ = try_fold(P, ast.parse(f"self.OFF.{node.attr}", mode="eval").body, anyd, DG)
+                if ok_ and isinstance(unwrap(v_), int):
+                    return ast.copy_location(ast.Constant(value=unwrap(v_)), node)
+            self.generic_visit(node)
+            return node
+
+    def fold(e):
+        import copy as _copy
+        return fold_consts(P, _Off().visit(_copy.deepcopy(e)), pr, PA, locals_=locs_)
+    LH = P.module_const(pr.module.name, "LEGACY_HEADER")
+
+    def atom(e):
+        cp = cmp_parts(e)
+        if cp is None:
+            return None
+        l, op, r = cp
+        if op not in ("==", "!="):
+            return None
+        lf_, rf_ = fold(l), fold(r)
+        for a_, b_ in ((lf_, rf_), (rf_, lf_)):
+            if isinstance(a_, ast.Subscript) and isinstance(a_.value, ast.Name) and a_.value.id == R:
+                if not isinstance(a_.slice, ast.Slice) and isinstance(a_.slice, ast.Constant) and a_.slice.value == DATA and isinstance(b_, ast.Constant) and b_.value == 1:
+                    return ("MORE", op == "==")
+                if isinstance(a_.slice, ast.Slice) and isinstance(b_, ast.Constant) and b_.value == LH:
+                    try:
+                        lo = ieval(a_.slice.lower, {}) if a_.slice.lower is not None else 0
+                        hi = ieval(a_.slice.upper, {}) if a_.slice.upper is not None else None
+                    except NotClosed:
+                        return None
+                    if lo == DATA and hi == DATA + len(LH) and a_.slice.step is None:
+                        return ("LEGH", op == "==")
+            if isinstance(a_, ast.Name) and a_.id == "name" and isinstance(b_, ast.Constant) and b_.value == "message":
+                return ("MSG", op == "==")
+        return None
+    t_edges = [n for n in g.nodes if n.kind == "T" and n.cond is not None and n.cond.ast is loop.test]
+    run.require(len(t_edges) >= 1, "PowHsmAttestation.run: page loop test edge not found")
+    # the flag variable tested by the loop and the legacy offset variable keep their names; their entry values are symbolic
+    n_cases = 0
+    for lf in Walker(A, pr, PA, atom, max_leaves=64).walk(t_edges[0], stops={head}):
+        kind = "next test" if lf.kind == "stop" else f"{lf.kind} at line {lf.node.lineno}"
+        apps = [(st, v) for k, st, v in lf.effects if k == "aug" and isinstance(st.target, ast.Subscript) and norm(st.target.value) == "bufs"]
+        reqs = [v for k, st, v in lf.effects if k == "assign" and st is sends[0]]
+        for val in completions({k: b for k, b in lf.pc.items() if k in ("MSG", "LEGH", "MORE")}, ["MSG", "LEGH", "MORE"]):
+            n_cases += 1
+            leg = val["MSG"] and val["LEGH"]
+            desc = f"gathering the {'message' if val['MSG'] else 'envelope'}, legacy header {'present' if val['LEGH'] else 'absent'}, more pages {'announced' if val['MORE'] else 'not announced'}"
+            okk = kind == "next test"
+            # what is appended: answer[DATA + off:] with off closed on this path
+            off = None
+            if len(apps) == 1:
+                v = fold(lf.deep(apps[0][0].value, stop=(R,)))
+                if isinstance(v, ast.Subscript) and isinstance(v.value, ast.Name) and v.value.id == R and isinstance(v.slice, ast.Slice) and v.slice.upper is None and v.slice.step is None:
+                    try:
+                        off = ieval(v.slice.lower, {"msgoffset": 1}) - DATA if v.slice.lower is not None else -DATA
+                    except (NotClosed, TypeError):
+                        off = None
+            tgt_ok = len(apps) == 1 and norm(apps[0][0].target.slice) == "name" and isinstance(apps[0][0].op, ast.Add)
+            want_off = 0 if leg else 1
+            run.check("R4p", okk and tgt_ok and off == want_off, f"[{desc}] appends answer[DATA+{want_off}:]", key=f"PowHsmAttestation.run|pages|append|{val['MSG']}|{val['LEGH']}|{val['MORE']}",
+                      where=pr.loc(apps[0][0]) if apps else pr.loc(loop),
+                      message=f"page loop, case [{desc}]: the iteration does `{kind}` and appends {[norm(lf.deep(a[0].value, stop=(R,)))[:60] for a in apps]} (offset {off} after the data start); "
+                              f"expected exactly answer[DATA+{want_off}:] appended to bufs[name] - a {'legacy message has no flag byte, its first byte belongs to the message' if leg else 'page starts with the more-pages flag'}")
+            more_v = lf.env.get("more", lf.bind.get("more"))
+            mt = norm(fold(more_v)) if more_v is not None else None
+            if leg:
+                okm = isinstance(more_v, ast.Constant) and more_v.value is False
+            else:
+                okm = more_v is not None and atom(more_v) == ("MORE", True)
+            run.check("R4p", okm, f"[{desc}] goes on iff {'never' if leg else 'MORE'}", key=f"PowHsmAttestation.run|pages|more|{val['MSG']}|{val['LEGH']}|{val['MORE']}",
+                      where=pr.loc(loop), message=f"page loop, case [{desc}]: the loop flag becomes `{mt}`; expected {'False (a legacy message is a single page)' if leg else 'answer[DATA] == 1'}")
+            pg = lf.env.get("page")
+            run.check("R4p", pg is not None and norm(pg) in ("page + 1", "1 + page"), f"[{desc}] next page", key=f"PowHsmAttestation.run|pages|page|{val['MSG']}|{val['LEGH']}|{val['MORE']}",
+                      where=pr.loc(loop), message=f"page loop, case [{desc}]: the page number becomes `{norm(pg) if pg is not None else 'page (unchanged)'}`, not page + 1")
+            rq = [norm(r_) for r_ in reqs]
+            run.check("R4p", rq == ["self.send(op, bytes([page]))"], f"[{desc}] requests the current page", key=f"PowHsmAttestation.run|pages|request|{val['MSG']}|{val['LEGH']}|{val['MORE']}",
+                      where=pr.loc(sends[0]), message=f"page loop, case [{desc}]: requests {rq}; expected self.send(op, bytes([page]))")
+            if leg:
+                mo = lf.env.get("msgoffset")
+                bk = lf.env.get("brk")
+                run.check("R4p", isinstance(bk, ast.Constant) and bk.value is True, f"[{desc}] the envelope will be the message", key="PowHsmAttestation.run|pages|legacy-envelope",
+                          where=pr.loc(loop), message="after a legacy message the flag that makes the envelope a copy of the message is not set")
+    run.floor("R4p", "page-loop cases", n_cases, 6)
+    # entry state of the page loop, per buffer
+    inits = [n for n in g.nodes if n.kind == "stmt" and isinstance(n.ast, ast.Assign) and any(isinstance(t, ast.Subscript) and norm(t.value) == "bufs" for t in n.ast.targets)]
+    for cn in [n for n in g.nodes if n.kind == "cond" and n.ast is loop.test][:1]:
+        for nm_, want_ in (("page", "0"), ("more", "True")):
+            vs = {norm(d.value) for d in PV.reaching(pr, PA, nm_, cn) if d.value is not None and not any(d.node is x for x in ast.walk(loop))}
+            run.check("R4p", vs == {want_}, f"page loop starts with {nm_} = {want_}", key=f"PowHsmAttestation.run|pages|init|{nm_}", where=pr.loc(loop),
+                      message=f"the page loop is entered with {nm_} = {sorted(vs)}; expected {want_}")
+    mo_defs = sorted(norm(d.value) for d in PV.defs(pr, PA).get("msgoffset", []) if d.value is not None)
+    run.check("R4p", mo_defs == ["0", "1"], "msgoffset is 1, and 0 only for a legacy message", key="PowHsmAttestation.run|pages|msgoffset-defs", where=pr.loc(),
+              message=f"msgoffset is assigned {mo_defs}")
+    empties = [n for n in inits if isinstance(n.ast.value, ast.Constant) and n.ast.value.value == b"" and norm(n.ast.targets[0].slice) == "name"]
+    run.check("R4p", len(empties) >= 1 and all(any(e_ in g.dominators(cn) for e_ in empties) for cn in g.nodes if cn.kind == "cond" and cn.ast is loop.test),
+              "each buffer starts empty", key="PowHsmAttestation.run|pages|init|buffer", where=pr.loc(loop), message="bufs[name] is not reset to b'' before its pages are gathered")
+
+
 def run(run):
     P, A = run.P, run.A
     F = Facts(A)
@@ -293,6 +423,12 @@ def run(run):
         run.rule("V.R2h", "The Ledger verify command's message header patterns are the fixed-width `^HSM:UI:([2345].[0-9])` / `^HSM:SIGNER:([2345].[0-9])` "
                  "(no terminator follows the version: a greedy pattern shifts every offset for some genuine devices).")
         c08.header_patterns(run, "R2h")
+        # "... or the root of trust is altered, gathering or verification fails ... accepted with exactly the device's values": the dominating checks of both
+        # verify commands and the parser of the signed powHSM message (rules R1 / R1s / R2 / R3 / R4 of C08)
+        c08._ledger(run)
+        c08._sgx(run)
+        c08._message(run)
+        c08._keys_hash(run)
     finally:
         run.rid_prefix = ""
 
@@ -377,6 +513,7 @@ def run(run):
     pr = P.method(PA, "run")
     gp = A.cfg(pr, PA)
     locs = set(PV.defs(pr, PA)) | set(pr.params)
+    _powhsm_pages(run, PV, PA, pr, gp)
 
     def folded(x):
         try:
